@@ -36,6 +36,8 @@ SelectedH(h, rv, strictOps) ==
   /\ (h.typ = "mutating" /\ rv.op = "DELETE" => h.ops = <<"DELETE">>)
   /\ (h.sub = "*" \/ h.sub = rv.sub)
   /\ (strictOps => (h.ops = <<>> \/ \E i \in DOMAIN h.ops : h.ops[i] = rv.op))
+  \* the handler serves the reviewed VERSION of the resource: the one it names, or -- naming none -- the preferred one ("v1" here)
+  /\ ("ver" \in DOMAIN h /\ "ver" \in DOMAIN rv => (IF h.ver = "" THEN rv.ver = "v1" ELSE h.ver = rv.ver))
 
 SelIdx(rec, strict) == {i \in DOMAIN rec.handlers : SelectedH(rec.handlers[i], rec.review, strict) /\ FltOk(rec.handlers[i].flt, rec.body)}
 SeqOfSet(Q) == LET RECURSIVE F(_) F(T) == IF T = {} THEN <<>> ELSE LET m == CHOOSE x \in T : \A y \in T : x <= y IN <<m>> \o F(T \ {m}) IN F(Q)
